@@ -5,79 +5,13 @@
 // dependence order, on a scheduler-chosen worker id.
 #ifndef VERIF_MOCK_GOMP_HPP
 #define VERIF_MOCK_GOMP_HPP
-#include <vector>
-#include <map>
-#include <set>
 #include <cstring>
 #include <cstdlib>
 #include <cstdint>
 #include <string>
 #include <algorithm>
 
-struct MockTask {
-    void (*fn)(void*);
-    void* data; void* raw;
-    std::vector<std::pair<void*, int>> deps;   // (address, kind) kind: 0 = in, 1 = out/inout, 2 = mutexinoutset
-    int priority;
-    long seq;
-    std::set<long> preds;
-    bool done = false;
-    int worker = 0;
-};
-
-struct MockRuntime {
-    enum Policy { IMMEDIATE = 0, FIFO = 1, LIFO = 2, RANDOM = 3, PRIO_INV = 4, PRIO = 5 };
-    Policy policy = FIFO;
-    int nthreads = 4;
-    unsigned long rng = 88172645463325252UL;
-    std::vector<MockTask> tasks;          // pending + done of the current region
-    std::vector<MockTask> history;        // everything executed (for reporting)
-    std::vector<long> exec_order;         // seq numbers in execution order
-    int current_worker = 0;
-    bool in_task = false;
-    long seq = 0;
-    void (*on_task_start)(long) = nullptr;
-    // dependence bookkeeping like libgomp: per address, last writers and readers since
-    std::map<void*, std::vector<long>> last_out, readers;
-    unsigned long next(){ rng ^= rng << 13; rng ^= rng >> 7; rng ^= rng << 17; return rng; }
-    void reset(Policy p, int T, unsigned long seed){ policy = p; nthreads = T; rng = seed * 2654435761UL + 88172645463325252UL; tasks.clear(); history.clear(); exec_order.clear(); last_out.clear(); readers.clear(); seq = 0; current_worker = 0; in_task = false; }
-    void run_task(MockTask& t){
-        const int saved = current_worker; const bool savedin = in_task;
-        t.worker = int(next() % (unsigned long)nthreads);
-        current_worker = t.worker; in_task = true;
-        if(on_task_start) on_task_start(t.seq);
-        t.fn(t.data);
-        current_worker = saved; in_task = savedin;
-        t.done = true;
-        exec_order.push_back(t.seq);
-    }
-    void drain(){
-        // execute all pending tasks in a policy-chosen linear extension of the dependence order
-        while(true){
-            std::vector<size_t> ready;
-            for(size_t k = 0 ; k < tasks.size() ; ++k){
-                if(tasks[k].done) continue;
-                bool ok = true;
-                for(long p : tasks[k].preds){ for(auto& o : tasks) if(o.seq == p && !o.done){ ok = false; break; } if(!ok) break; }
-                if(ok) ready.push_back(k);
-            }
-            if(ready.empty()) break;
-            size_t pick = ready[0];
-            switch(policy){
-            case LIFO: pick = ready.back(); break;
-            case RANDOM: pick = ready[next() % ready.size()]; break;
-            case PRIO_INV: for(size_t r : ready) if(tasks[r].priority < tasks[pick].priority) pick = r; break;
-            case PRIO: for(size_t r : ready) if(tasks[r].priority > tasks[pick].priority) pick = r; break;
-            default: break;
-            }
-            run_task(tasks[pick]);
-        }
-        for(auto& t : tasks){ history.push_back(t); std::free(t.raw); }
-        tasks.clear();
-    }
-};
-
-inline MockRuntime& mock_rt(){ static MockRuntime rt; return rt; }
+#include "mock_sched.hpp"
 
 extern "C" {
 int omp_get_thread_num(void) noexcept { return mock_rt().in_task ? mock_rt().current_worker : 0; }
@@ -96,11 +30,13 @@ void GOMP_task(void (*fn)(void*), void* data, void (*cpyfn)(void*, void*), long 
                bool /*if_clause*/, unsigned /*flags*/, void** depend, int priority, void* /*detach*/){
     MockRuntime& rt = mock_rt();
     MockTask t;
-    t.fn = fn; t.priority = priority; t.seq = rt.seq++;
+    t.priority = priority;
     // copy the argument block exactly as libgomp does (cpyfn runs the firstprivate copy constructors)
-    t.raw = std::malloc(size_t(arg_size + arg_align));
-    t.data = (void*)(((uintptr_t)t.raw + uintptr_t(arg_align) - 1) & ~(uintptr_t(arg_align) - 1));
-    if(cpyfn) cpyfn(t.data, data); else std::memcpy(t.data, data, size_t(arg_size));
+    void* raw = std::malloc(size_t(arg_size + arg_align));
+    void* blk = (void*)(((uintptr_t)raw + uintptr_t(arg_align) - 1) & ~(uintptr_t(arg_align) - 1));
+    if(cpyfn) cpyfn(blk, data); else std::memcpy(blk, data, size_t(arg_size));
+    t.run = [fn, blk](){ fn(blk); };
+    t.cleanup = [raw](){ std::free(raw); };
     if(depend){
         size_t n, nout, nmtx = 0, nin, base;
         if(depend[0] != nullptr){ n = (size_t)(uintptr_t)depend[0]; nout = (size_t)(uintptr_t)depend[1]; nin = n - nout; base = 2; }
@@ -110,25 +46,7 @@ void GOMP_task(void (*fn)(void*), void* data, void (*cpyfn)(void*, void*), long 
         for(size_t k = 0 ; k < nin ; ++k) t.deps.push_back({depend[base + nout + nmtx + k], 0});
         (void)n;
     }
-    // dependence edges (OpenMP 4.5 semantics; mutexinoutset treated as inout = the strongest legal reading for ordering,
-    // mutual exclusion holds trivially because tasks run one at a time)
-    for(auto& d : t.deps){
-        if(d.second == 0){
-            for(long w : rt.last_out[d.first]) t.preds.insert(w);
-            rt.readers[d.first].push_back(t.seq);
-        }
-    }
-    for(auto& d : t.deps){
-        if(d.second != 0){
-            for(long w : rt.last_out[d.first]) t.preds.insert(w);
-            for(long r : rt.readers[d.first]) if(r != t.seq) t.preds.insert(r);
-        }
-    }
-    for(auto& d : t.deps){
-        if(d.second != 0){ rt.last_out[d.first] = {t.seq}; rt.readers[d.first].clear(); }
-    }
-    rt.tasks.push_back(t);
-    if(rt.policy == MockRuntime::IMMEDIATE) rt.drain();
+    rt.submit(std::move(t));
 }
 }
 #endif
